@@ -33,15 +33,18 @@ import (
 
 	"github.com/influxdata/influxdb/toml"
 	"github.com/openGemini/openGemini/engine/immutable"
+	"github.com/openGemini/openGemini/engine/index/tsi"
 	"github.com/openGemini/openGemini/lib/config"
 	"github.com/openGemini/openGemini/lib/errno"
 	"github.com/openGemini/openGemini/lib/fileops"
+	"github.com/openGemini/openGemini/lib/index"
 	"github.com/openGemini/openGemini/lib/interruptsignal"
 	"github.com/openGemini/openGemini/lib/logger"
 	"github.com/openGemini/openGemini/lib/metaclient"
 	"github.com/openGemini/openGemini/lib/netstorage"
 	"github.com/openGemini/openGemini/lib/raftconn"
 	"github.com/openGemini/openGemini/lib/raftlog"
+	"github.com/openGemini/openGemini/lib/util"
 	"github.com/openGemini/openGemini/lib/util/lifted/hashicorp/serf/serf"
 	"github.com/openGemini/openGemini/lib/util/lifted/influx/meta"
 	"github.com/openGemini/openGemini/lib/util/lifted/vm/protoparser/influx"
@@ -189,7 +192,9 @@ type c05Replica struct {
 	lagging        bool // restarted and not yet observed with every acknowledged write
 	floor          int  // acknowledged writes this replica was observed to hold (never decreases)
 	restarts       int
-	behind         bool // observed, after its restart, without some acknowledged write
+	clock          uint64 // logical clock handed to the index on every (re)start, as the meta service does
+	seq            uint64 // series-id sequence of THIS replica's index
+	behind         bool   // observed, after its restart, without some acknowledged write
 	snapsAtRestart int64
 }
 
@@ -231,6 +236,10 @@ func (g *c05Group) logf(format string, a ...any) {
 
 var c05Progress atomic.Int64
 
+// c05Expired: wall-clock deadline measured with the real clock by a goroutine outside the bubble (the shared kit counts
+// 250 ms sleeps, which under-counts badly on an overloaded machine).
+var c05Expired atomic.Bool
+
 var c05NopLogger = logger.NewLogger(errno.ModuleUnknown).SetZapLogger(zap.NewNop())
 
 func c05NewGroup(dir string) (*c05Group, error) {
@@ -269,7 +278,8 @@ func c05NewGroup(dir string) (*c05Group, error) {
 // start opens the replica from its directories: the shard (real recovery path), then what
 // EngineImpl.Assign does for a replicated partition: startRaftNode, addDBPTInfo, readReplayForReplication.
 func (g *c05Group) start(r *c05Replica) error {
-	sh, err := vOpenShard(filepath.Join(r.dir, "shard"))
+	r.clock++
+	sh, err := c05OpenShard(filepath.Join(r.dir, "shard"), r.clock, &r.seq)
 	if err != nil {
 		return err
 	}
@@ -309,6 +319,55 @@ func (g *c05Group) start(r *c05Replica) error {
 	g.router.mu.Unlock()
 	readReplayForReplication(dbpt.ReplayC, g.meta, st, c05DB, uint32(r.id))
 	return nil
+}
+
+// c05OpenShard is vOpenShard of the shared base with one difference: the series-id sequence and the logical clock belong
+// to the replica. (vOpenShard resets ONE package-level sequence on every open, which is right for one shard at a time but
+// makes a live replica hand out an already used series id after another replica restarts.)
+func c05OpenShard(dir string, clock uint64, seq *uint64) (*vShard, error) {
+	dataPath := dir + "/data"
+	walPath := dir + "/wal"
+	lockPath := filepath.Join(dataPath, "LOCK")
+	indexPath := filepath.Join(dir, defaultDb, "/index/data")
+	ident := &meta.IndexIdentifier{OwnerDb: defaultDb, OwnerPt: defaultPtId, Policy: defaultRp}
+	ident.Index = &meta.IndexDescriptor{IndexID: 1, IndexGroupID: 2, TimeRange: meta.TimeRangeInfo{}}
+	*seq = 1 << 20
+	opts := new(tsi.Options).
+		Ident(ident).
+		Path(indexPath).
+		IndexType(index.MergeSet).
+		EngineType(config.TSSTORE).
+		StartTime(time.Unix(0, 0)).
+		EndTime(time.Unix(0, 0).Add(200 * 365 * 24 * time.Hour)).
+		Duration(time.Hour).
+		LogicalClock(clock).
+		SequenceId(seq).
+		Lock(&lockPath)
+	indexBuilder := tsi.NewIndexBuilder(opts)
+	primaryIndex, err := tsi.NewIndex(opts)
+	if err != nil {
+		return nil, err
+	}
+	primaryIndex.SetIndexBuilder(indexBuilder)
+	indexRelation, _ := tsi.NewIndexRelation(opts, primaryIndex, indexBuilder)
+	indexBuilder.Relations[uint32(index.MergeSet)] = indexRelation
+	if err = indexBuilder.Open(); err != nil {
+		return nil, err
+	}
+	shardDuration := &meta.DurationDescriptor{Tier: util.Hot, TierDuration: time.Hour}
+	tr := &meta.TimeRangeInfo{StartTime: mustParseTime(time.RFC3339Nano, "1970-01-01T01:00:00Z"),
+		EndTime: mustParseTime(time.RFC3339Nano, "2099-01-01T01:00:00Z")}
+	shardIdent := &meta.ShardIdentifier{ShardID: defaultShardId, ShardGroupID: 1, OwnerDb: defaultDb, OwnerPt: defaultPtId, Policy: defaultRp}
+	sh := NewShard(dataPath, walPath, &lockPath, shardIdent, shardDuration, tr, DefaultEngineOption, config.TSSTORE, nil)
+	sh.indexBuilder = indexBuilder
+	sh.SetWriteColdDuration(24 * time.Hour)
+	if err := sh.OpenAndEnable(nil); err != nil {
+		_ = sh.Close()
+		_ = indexBuilder.Close()
+		return nil, err
+	}
+	compWorker.UnregisterShard(sh.ident.ShardID)
+	return &vShard{dir: dir, sh: sh}, nil
 }
 
 // kill: the store process dies. Nothing of it runs any more; its memtable is gone (shard.Close drops it
@@ -895,7 +954,6 @@ var c05RunSeq int
 
 func c05Run(base string, seq []string) (out c05Outcome) {
 	c05RunSeq++
-	vClock = 0
 	dir := filepath.Join(base, fmt.Sprintf("g%d", c05RunSeq))
 	g, err := c05NewGroup(dir)
 	if err != nil {
@@ -1011,10 +1069,16 @@ const (
 
 func TestVerifC05(t *testing.T) {
 	rep := kit.NewReport("C05")
-	go func() { // real-time watchdog outside the bubble
+	go func() { // real-time watchdog and deadline outside the bubble (time.Now is the real clock here)
 		last, lastT := int64(-1), time.Now()
+		start := time.Now()
+		dl := 0
+		fmt.Sscanf(kit.Getenv("VERIF_DEADLINE_S", "0"), "%d", &dl)
 		for {
-			time.Sleep(5 * time.Second)
+			time.Sleep(2 * time.Second)
+			if dl > 0 && time.Since(start) > time.Duration(dl)*time.Second {
+				c05Expired.Store(true)
+			}
 			if p := c05Progress.Load(); p != last {
 				last, lastT = p, time.Now()
 				continue
@@ -1128,7 +1192,7 @@ func c05Main(t *testing.T, rep *kit.Report) {
 		if !kit.Mine(i) {
 			continue
 		}
-		if rep.Expired() {
+		if rep.Expired() || c05Expired.Load() {
 			rep.Cut(fmt.Sprintf("deadline: this worker stopped at sequence %d of %d (shortest first)", i, len(all)))
 			break
 		}
